@@ -3,11 +3,11 @@ from __future__ import annotations
 
 import ast
 
-from .. import memo
+from .. import memo, shape
 from ..flow import call_name, dotted, norm, writes_in
 from ..index import AnalysisError, walk_local
 from ..lib import cfg_of, defs_of, live, nodes_with, return_nodes, undominated, witness
-from .C01 import recursion_exponent_rule
+from .C01 import find_expr, find_stores, known, recursion_exponent_rule, resolve, rnorm
 
 PR = "pint.facets.plain.registry"
 U = "pint.util"
@@ -40,8 +40,6 @@ def run(ck, ix, tier):
 
     # root expansion: names are canonicalised per key inside the loop (never merged beforehand), base units accumulate
     fi = ix.func(PR, "GenericPlainRegistry._get_root_units_recurse")
-    from .. import shape
-    src = norm(fi.node)
     looks = [x for x in walk_local(fi.node) if isinstance(x, ast.Subscript) and isinstance(x.ctx, ast.Load) and norm(x.value) == "self._units"]
     okl = bool(looks) and all(isinstance(shape.resolve(x.slice, fi.node), ast.Call) and call_name(shape.resolve(x.slice, fi.node)) == "get_name" for x in looks)
     ck.check(okl, "G-PROV", "_get_root_units_recurse|definition-of-canonical-name", fi.loc(looks[0]) if looks else fi.loc(), "each unit is looked up under its canonical name", "the unit definition is no longer looked up under get_name(key)")
@@ -55,24 +53,45 @@ def run(ck, ix, tier):
         and shape.holds_at(recs[0], fi.node, is_base, False) and shape.holds_at(recs[0], fi.node, has_ref, False) and norm(muls[0].target.slice) == "None"
     ck.check(okb, "G-PROV", "_get_root_units_recurse|base-or-reference", fi.loc(), "base units accumulate their exponent, derived units fold their scale into the prefactor and recurse into their reference", "the base/derived case split of the root-unit expansion changed")
     fi = ix.func(PR, "GenericPlainRegistry._get_root_units")
-    src = norm(fi.node)
-    # the factor is the scalar (None) slot of the accumulator - read or popped; the units are the other slots with a
-    # non-zero exponent (the None slot is excluded by a filter or because it was popped before the comprehension)
-    rets = [r for r in shape.returns_of(fi.node) if isinstance(r.value, ast.Tuple) and len(r.value.elts) == 2]
-    scalar = lambda e: norm(e) in ("accumulators[None]", "accumulators.pop(None)")
-    fvals = [shape.resolve(r.value.elts[0], fi.node) for r in rets]
-    ck.check(bool(rets) and all(scalar(v) or (isinstance(v, ast.Constant) and v.value is None) or norm(v) == "factor" for v in fvals) and any(scalar(v) for v in fvals) or
-             any(isinstance(a_, ast.Assign) and norm(a_.targets[0]) == "factor" and scalar(a_.value) for a_ in walk_local(fi.node)),
-             "G-PROV", "_get_root_units|factor-is-scalar-accumulator", fi.loc(), "factor read from the scalar accumulator", "the factor is no longer the scalar (None) slot of the accumulator")
+    # ACC = the accumulator handed to the recursive expansion.  The factor is its scalar (None) slot - read or popped;
+    # the units are the other slots with a non-zero exponent (the None slot is excluded by a filter or because it was
+    # popped before the comprehension)
+    accs = sorted({b["_A"] for _, b in find_expr(fi.node, "self._get_root_units_recurse(_K, _E, _A)")})
+    ck.floor("G-PROV", len(accs), 1, "accumulator handed to _get_root_units_recurse in _get_root_units")
+    ACC = accs[0]
+    scalar = lambda e: norm(e) in (f"{ACC}[None]", f"{ACC}.pop(None)")
+
+    def factor_kind(e, at, depth=3):
+        """'scalar' (the None slot of ACC), 'none' (non-multiplicative marker), 'one' (identity for empty input), or
+        None; a name assigned on several branches is all of its assignments"""
+        r = resolve(e, fi.node)
+        if scalar(r):
+            return {"scalar"}
+        if isinstance(r, ast.Constant) and r.value is None:
+            return {"none"}
+        if isinstance(r, ast.Constant) and r.value == 1 and known(at, fi.node, "input_units", False) is not None:
+            return {"one"}
+        if isinstance(r, ast.Name) and depth > 0:
+            out = set()
+            for v, kind, st in defs_of(fi).defs.get(r.id, []):
+                k = factor_kind(v, st, depth - 1) if kind == "assign" and v is not None else None
+                if not k:
+                    return None
+                out |= k
+            return out or None
+        return None
+    rets = [r for r in shape.returns_of(fi.node) if isinstance(shape.unalias(r.value, fi.node), ast.Tuple) and len(shape.unalias(r.value, fi.node).elts) == 2]
+    kinds = [factor_kind(shape.unalias(r.value, fi.node).elts[0], r) for r in rets]
+    ck.check(bool(rets) and all(kinds) and any("scalar" in k for k in kinds if k), "G-PROV", "_get_root_units|factor-is-scalar-accumulator", fi.loc(), "factor read from the scalar accumulator", "the factor is no longer the scalar (None) slot of the accumulator")
     ucs = [c for c in walk_local(fi.node) if isinstance(c, ast.Call) and norm(c.func) in ("self.UnitsContainer", "UnitsContainer") and c.args]
     okc = False
     for c in ucs:
         ef = shape.entry_facts(fi.node, c.args[0])
-        if ef is None or "accumulators" not in ef[1]:
+        if ef is None or ACC not in ef[1]:
             continue
-        facts, _src = ef
-        popped = any(isinstance(c_, ast.Call) and norm(c_) == "accumulators.pop(None)" and c_.lineno < c.lineno for c_ in walk_local(fi.node))
-        okc = okc or (((("K is None", False) in facts) or popped) and ((("V == 0", False) in facts) or (("V", True) in facts)))
+        facts_, _src = ef
+        popped = any(isinstance(c_, ast.Call) and norm(c_) == f"{ACC}.pop(None)" and c_.lineno < c.lineno for c_ in walk_local(fi.node))
+        okc = okc or (((("K is None", False) in facts_) or popped) and ((("V == 0", False) in facts_) or (("V", True) in facts_)))
     ck.check(okc, "G-CANON",
              "_get_root_units|units-without-scalar-slot-and-zeros", fi.loc(), "root units exclude the scalar slot and zero exponents", "the root-units container can keep the scalar slot or zero exponents")
 
@@ -104,23 +123,31 @@ def run(ck, ix, tier):
         in_handler = [c for h in t.handlers for c in ast.walk(h) if isinstance(c, ast.Call) and call_name(c) == "float"]
         ok = ok or (bool(in_body) and bool(in_handler))
     ck.check(ok, "G-PROV", "eval_token|integers-stay-integers", fi.loc(), "int() is tried before float()", "in float registries integer literals are no longer tried as int first")
+    def returns(f_, *patterns, deep=False):
+        """some return of f_ yields a value matching one of the patterns (temporaries resolved; with deep also
+        single-return helpers expanded)"""
+        for r in shape.returns_of(f_.node):
+            forms = [r.value, resolve(r.value, f_.node)] + ([shape.deep(ix, f_, r.value, f_.node)] if deep else [])
+            if not shape.dead(r, f_.node) and any(shape.match(p_, v_) is not None for p_ in patterns for v_ in forms):
+                return True
+        return False
     fi = ix.func(PR, "GenericPlainRegistry._eval_token")
     ck.analysed(fi)
-    src = norm(fi.node)
-    ck.check("return ParserHelper.eval_token(token, non_int_type=self.non_int_type)" in src, "G-PROV", "_eval_token|numbers-in-registry-type", fi.loc(), "NUMBER tokens are evaluated in the registry's numeric type", "NUMBER tokens are no longer evaluated with the registry's non_int_type")
-    ck.check("self.non_int_type('inf')" in src and "self.non_int_type('nan')" in src, "G-PROV", "_eval_token|inf-nan-in-registry-type", fi.loc(), "inf/nan in the registry's numeric type", "inf/nan are no longer built with non_int_type")
+    ck.check(returns(fi, "ParserHelper.eval_token(token, non_int_type=self.non_int_type)", "ParserHelper.eval_token(token, self.non_int_type)"), "G-PROV", "_eval_token|numbers-in-registry-type", fi.loc(), "NUMBER tokens are evaluated in the registry's numeric type", "NUMBER tokens are no longer evaluated with the registry's non_int_type")
+    ck.check(returns(fi, "self.non_int_type('inf')") and returns(fi, "self.non_int_type('nan')"), "G-PROV", "_eval_token|inf-nan-in-registry-type", fi.loc(), "inf/nan in the registry's numeric type", "inf/nan are no longer built with non_int_type")
     fi = ix.func("pint.delegates.base_defparser", "ParserConfig.to_number")
     ck.analysed(fi)
-    src = norm(fi.node)
-    ck.check("self.to_scaled_units_container(s)" in src and "return val.scale" in src, "G-PROV", "ParserConfig.to_number|scale-of-parsed-expression", fi.loc(), "numbers in definitions are the scale of the expression parsed in non_int_type", "ParserConfig.to_number no longer returns the scale parsed in non_int_type")
+    ck.check(returns(fi, "self.to_scaled_units_container(s).scale", "ParserHelper.from_string(s, self.non_int_type).scale", "ParserHelper.from_string(s, non_int_type=self.non_int_type).scale", deep=True), "G-PROV", "ParserConfig.to_number|scale-of-parsed-expression", fi.loc(), "numbers in definitions are the scale of the expression parsed in non_int_type", "ParserConfig.to_number no longer returns the scale parsed in non_int_type")
     fi = ix.func("pint.delegates.base_defparser", "ParserConfig.to_scaled_units_container")
-    ck.check("ParserHelper.from_string(s, self.non_int_type)" in norm(fi.node), "G-PROV", "ParserConfig|parses-in-non_int_type", fi.loc(), "definition expressions parsed with non_int_type", "definition expressions are no longer parsed with the configured non_int_type")
-    # exponents
+    ck.check(returns(fi, "ParserHelper.from_string(s, self.non_int_type)", "ParserHelper.from_string(s, non_int_type=self.non_int_type)"), "G-PROV", "ParserConfig|parses-in-non_int_type", fi.loc(), "definition expressions parsed with non_int_type", "definition expressions are no longer parsed with the configured non_int_type")
+    # exponents: every conversion self._non_int_type(X) of a value X happens exactly where X is known to be neither an
+    # int nor already of that type (ints are kept)
     for q in ("UnitsContainer.__init__", "UnitsContainer._normalize_nonfloat_value"):
         f = ix.func(U, q)
         ck.analysed(f)
-        conv = [c for c in walk_local(f.node) if isinstance(c, ast.Call) and norm(c.func) == "self._non_int_type"]
-        ck.check(bool(conv) and "isinstance(value, int)" in norm(f.node), "G-PROV", f"{q}|non-int-exponents-in-non_int_type", f.loc(), "non-int exponents are converted to the container's numeric type, ints kept",
+        conv = [(c, b["_X"]) for c, b in find_expr(f.node, "self._non_int_type(_X)") if not isinstance(c.args[0], ast.Constant)]
+        okx = bool(conv) and all(known(c, f.node, f"isinstance({x}, int)", False) is not None and known(c, f.node, f"isinstance({x}, self._non_int_type)", False) is not None for c, x in conv)
+        ck.check(okx, "G-PROV", f"{q}|non-int-exponents-in-non_int_type", f.loc(), "non-int exponents are converted to the container's numeric type, ints kept",
                  f"{q} no longer converts non-integer exponents with self._non_int_type")
     # no float on the factor path
     n = 0
@@ -137,7 +164,9 @@ def run(ck, ix, tier):
             elif isinstance(x, ast.Attribute) and dotted(x.value) == "math":
                 bad.append(x)
         if q.endswith("eval_token"):
-            bad = [b for b in bad if not (isinstance(b, ast.Call) and norm(b) == "float(token_text)")]
+            # float(<literal text>) is the float registry's own numeric type: harmless where `non_int_type is float` is known
+            bad = [b for b in bad if not (isinstance(b, ast.Call) and len(b.args) == 1 and rnorm(b.args[0], f.node) == "token.string" and
+                                          (shape.holds_at(b, f.node, is_float, True) or shape.holds_at(b, f.node, isnt_float, False)))]
         ck.check(not bad, "G-PROV", f"no-float-on-factor-path|{q}", f.loc(bad[0]) if bad else f.loc(), "no float()/float literal/math.* on the factor path",
                  f"`{norm(bad[0]) if bad else ''}` introduces binary floating point on the conversion-factor path of exact registries")
     ck.floor("G-PROV", n, 5, "functions on the factor path scanned for float contamination")
@@ -146,45 +175,49 @@ def run(ck, ix, tier):
     from ..lib import inlined as _inl
     fi = _inl(ix, ix.func(PR, "GenericPlainRegistry.get_name"), skip=("_helper_adder", "_helper_single_adder"))     # an extracted `_define_prefixed_unit` is looked through
     ck.analysed(fi)
-    defs = defs_of(fi)
-    stores = [(p, k, nd) for (p, k, nd) in writes_in(fi.node) if p.startswith("self._units") and "casei" not in p and isinstance(nd, ast.Assign)]
+    gn = fi.node
+    stores = [(p, k, nd) for (p, k, nd) in writes_in(gn) if p.startswith("self._units") and "casei" not in p and isinstance(nd, ast.Assign)]
     ck.check(len(stores) == 1, "G-OWN", "get_name|exactly-one-registration", fi.loc(stores[1][2]) if len(stores) > 1 else fi.loc(),
              "one registration of the prefixed unit", f"get_name writes the unit table {len(stores)} times (a prefixed unit must be registered under its long name only; other spellings can shadow defined units)")
-    cas = [(p, k, nd) for (p, k, nd) in writes_in(fi.node) if "_units_casei" in p]
+    cas = [(p, k, nd) for (p, k, nd) in writes_in(gn) if "_units_casei" in p]
     ck.check(not cas, "G-OWN", "get_name|prefixed-units-not-in-casei-index", fi.loc(cas[0][2]) if cas else fi.loc(),
              "on-the-fly prefixed units stay out of the case-insensitive index (the prefix search relies on it)",
              "get_name enters the on-the-fly prefixed unit into _units_casei: prefixes would then apply to prefixed units (kilomillifoot) depending on lookup history")
+    # PREFIX, UNIT: the first two components of the first candidate returned by parse_unit_name(name_or_alias, case_sensitive)
+    first = "self.parse_unit_name(name_or_alias, case_sensitive)[0]"
+    cand = [b for st, b in find_stores(gn, "(_P, _U, _X)") + find_stores(gn, "(_P, _U)") if rnorm(st.value, gn) in (first, first + "[:2]")]
+    ck.check(len(cand) == 1, "G-PROV", "get_name|prefix-and-unit-from-first-candidate", fi.loc(), "prefix and unit from the same first candidate", "prefix and unit name no longer come from the same first candidate")
+    PREFIX, UNIT = first + "[0]", first + "[1]"          # what the two locals stand for, whatever they are called
+    full = f"{PREFIX} + {UNIT}"
+    show = lambda t_: t_.replace(PREFIX, "prefix").replace(UNIT, "unit_name")     # stable, readable report texts
     for (p, k, nd) in stores[:1]:
         t = nd.targets[0]
-        key = norm(defs.inline(t.slice))
-        v = nd.value
-        ck.check(key == "prefix + unit_name", "G-PROV", "get_name|registered-under-prefix+unit", fi.loc(nd), "stored under prefix + unit_name", f"the prefixed unit is stored under `{key}`")
-        if isinstance(v, ast.Call) and call_name(v) == "UnitDefinition":
-            a = [norm(defs.inline(x)) for x in v.args]
-            ck.check(a[0] == "prefix + unit_name", "G-PROV", "get_name|definition-name==key", fi.loc(v), "definition name equals its key", f"the definition is named `{a[0]}` but stored under `{key}`")
-            ck.check(a[3] == "self._prefixes[prefix].converter", "G-PROV", "get_name|prefix-converter", fi.loc(v), "scaled by that prefix's converter, once", f"the prefixed unit uses converter `{a[3]}`")
-            ck.check(a[4] == "self.UnitsContainer({unit_name: 1})", "G-PROV", "get_name|reference-is-unit^1", fi.loc(v), "reference is the unprefixed unit to the power 1", f"the prefixed unit references `{a[4]}`")
+        key = rnorm(t.slice, gn)
+        v = shape.unalias(nd.value, gn)
+        ck.check(key == full, "G-PROV", "get_name|registered-under-prefix+unit", fi.loc(nd), "stored under prefix + unit_name", f"the prefixed unit is stored under `{show(key)}`")
+        if isinstance(v, ast.Call) and call_name(v) == "UnitDefinition" and len(v.args) >= 5:
+            a = [rnorm(x, gn) for x in v.args]
+            ck.check(a[0] == full, "G-PROV", "get_name|definition-name==key", fi.loc(v), "definition name equals its key", f"the definition is named `{show(a[0])}` but stored under `{show(key)}`")
+            ck.check(a[3] == f"self._prefixes[{PREFIX}].converter", "G-PROV", "get_name|prefix-converter", fi.loc(v), "scaled by that prefix's converter, once", f"the prefixed unit uses converter `{show(a[3])}`")
+            ck.check(a[4] == f"self.UnitsContainer({{{UNIT}: 1}})", "G-PROV", "get_name|reference-is-unit^1", fi.loc(v), "reference is the unprefixed unit to the power 1", f"the prefixed unit references `{show(a[4])}`")
         else:
             ck.check(False, "G-PROV", "get_name|definition-shape", fi.loc(nd), "", f"unrecognised registration `{norm(nd)}`")
-    cand = [a for a in walk_local(fi.node) if isinstance(a, ast.Assign) and isinstance(a.targets[0], ast.Tuple) and norm(a.value) == "candidates[0]"]
-    ck.check(len(cand) == 1 and [norm(e) for e in cand[0].targets[0].elts][:2] == ["prefix", "unit_name"], "G-PROV", "get_name|prefix-and-unit-from-first-candidate", fi.loc(), "prefix and unit from the same first candidate", "prefix and unit name no longer come from the same first candidate")
     cfg = cfg_of(fi)
+    ret_text = lambda r: rnorm(cfg.nodes[r].ast.value, gn) if cfg.nodes[r].ast.value is not None else ""
     for r in live(cfg, return_nodes(cfg)):
-        v = cfg.nodes[r].ast.value
-        s = norm(defs.inline(v)) if v is not None else ""
-        ok = s in ("''", "self._units[name_or_alias].name", "prefix + unit_name", "unit_name")
-        ck.check(ok, "G-PROV", f"get_name|returns-canonical-name|{s[:40]}", fi.loc(cfg.nodes[r].ast), "returns a canonical name", f"get_name returns `{s}`")
-    # the bare unit name may only be returned on an edge where `prefix` is known to be empty (if prefix: ... / if not prefix: return)
-    no_prefix = shape.guard_edges(cfg, lambda a: isinstance(a, ast.Name) and a.id == "prefix", want=False)
+        s = ret_text(r)
+        ok = s in ("''", "self._units[name_or_alias].name", full, UNIT)
+        ck.check(ok, "G-PROV", f"get_name|returns-canonical-name|{show(s)[:40]}", fi.loc(cfg.nodes[r].ast), "returns a canonical name", f"get_name returns `{show(s)}`")
+    # the bare unit name may only be returned on an edge where PREFIX is known to be empty (if prefix: ... / if not prefix: return)
+    no_prefix = shape.guard_edges(cfg, lambda a: rnorm(a, gn) == PREFIX if isinstance(a, ast.Name) else False, want=False)
     pre = no_prefix
     for r in live(cfg, return_nodes(cfg)):
-        v = cfg.nodes[r].ast.value
-        if v is not None and norm(defs.inline(v)) == "unit_name":
+        if ret_text(r) == UNIT:
             p = shape.reachable_without(cfg, [r], no_prefix)
             ck.check(bool(pre) and p is None, "G-PROV", "get_name|bare-unit-name-only-without-prefix", fi.loc(cfg.nodes[r].ast), "the bare unit name is returned only when there is no prefix",
                      "the unprefixed name can be returned although a prefix was parsed (prefix factor dropped)", witness(cfg, p))
     f = ix.func("pint.facets.plain.definitions", "PrefixDefinition.converter")
-    ck.check("ScaleConverter(self.value)" in norm(f.node), "G-PROV", "PrefixDefinition.converter|scale-is-prefix-value", f.loc(), "prefix converter scales by the prefix value", "PrefixDefinition.converter is no longer ScaleConverter(self.value)")
+    ck.check(returns(f, "ScaleConverter(self.value)"), "G-PROV", "PrefixDefinition.converter|scale-is-prefix-value", f.loc(), "prefix converter scales by the prefix value", "PrefixDefinition.converter is no longer ScaleConverter(self.value)")
 
     # ------------------------------------------------------------ _convert: twin branches; convert(): identity
     fi = ix.func(PR, "GenericPlainRegistry._convert")
@@ -217,8 +250,8 @@ def run(ck, ix, tier):
         ck.check(not twice, "G-TWIN", "_convert|factor-applied-once", fi.loc(cfgc.nodes[m].ast), "the factor is applied once per path", "a path through _convert applies the factor twice")
     fi = ix.func(PR, "GenericPlainRegistry.convert")
     cfg = cfg_of(fi)
-    idt = [n.id for n in cfg.nodes if n.kind == "test" and norm(n.ast) in ("src == dst", "dst == src")]
-    ok = bool(idt) and all(isinstance(cfg.nodes[v].ast, ast.Return) and norm(cfg.nodes[v].ast.value) == "value" for t in idt for (v, lab) in cfg.succ[t] if lab == "t")
+    same = shape.guard_edges(cfg, lambda a: norm(a) in ("src == dst", "dst == src"), want=True)
+    ok = bool(same) and all(isinstance(cfg.nodes[v].ast, ast.Return) and rnorm(cfg.nodes[v].ast.value, fi.node) == "value" for (t, lab) in same for (v, l2) in cfg.succ[t] if l2 == lab)
     ck.check(ok, "G-PROV", "convert|identity-between-equal-units", fi.loc(), "equal units return the value unchanged", "convert no longer returns the value unchanged for equal units")
     c = [x for x in walk_local(fi.node) if isinstance(x, ast.Call) and call_name(x) == "_convert"]
     ck.check(bool(c) and [norm(a) for a in c[0].args][:3] == ["value", "src", "dst"], "G-PROV", "convert|src-dst-order", fi.loc(), "delegates (value, src, dst)", "convert passes src/dst in the wrong order")
